@@ -29,9 +29,9 @@ SUB = "c09"
 
 # The implementation-shaped model as the code is TODAY.  Flip a flag to True when the corresponding
 # fix lands in the repository (otherwise the fixed cells are reported as model_drift, diagnostic only).
-AS_IS = {"FixUintptr": False,   # runtime.toString has no reflect.Uintptr case
-         "FixMapKey": False,    # checkShowJS/JSON test Implements(Stringer) on the map type, not on its key type
-         "FixMdURL": False}     # showInURL (Markdown URL) does not accept Markdown stringers
+AS_IS = {"FixUintptr": True,    # runtime.toString has no reflect.Uintptr case
+         "FixMapKey": True,     # checkShowJS/JSON test Implements(Stringer) on the map type, not on its key type
+         "FixMdURL": True}      # showInURL (Markdown URL) does not accept Markdown stringers
 INTENDED = {k: True for k in AS_IS}
 # for scratch worktrees (VERIF_REPO=...): VERIF_C09_FIXED="FixUintptr,FixMdURL" or "all" models those fixes as applied
 _fx = os.environ.get("VERIF_C09_FIXED", "")
@@ -43,16 +43,7 @@ _W1 = "runtime.toString has no reflect.Uintptr case: a uintptr (or named uintptr
 _W2 = "map with uintptr key shown as JavaScript/JSON: key accepted by checkShowJS/JSON, converted by toString which lacks reflect.Uintptr"
 _W3 = "checkShowJS/JSON test t.Implements(Stringer) on the map type instead of its key type: a map type with a String method and an unshowable key builds and fails at run time"
 _W4 = "Markdown URL: checkShow accepts MarkdownStringer/MarkdownEnvStringer in Markdown context but showInURL renders with showInHTML, which does not know them"
-PROPOSED_KNOWN = (
-    [{"kind": "known", "signature": {"fam": "showtable", "rel": "B=>~R", "kind": "uintptr", "cc": cc}, "what": _W1 + " (%s contexts)" % cc}
-     for cc in ("scalar", "url", "mdurl")] +
-    [{"kind": "known", "signature": {"fam": "showtable", "rel": "B=>~R", "key": "uintptr", "cc": cc}, "what": _W2 + " (%s)" % cc}
-     for cc in ("js", "json")] +
-    [{"kind": "known", "signature": {"fam": "showtable", "rel": "B=>~R", "kind": "map", "key": "array", "type": "M.Stringer.badkey", "cc": cc},
-      "what": _W3 + " (%s)" % cc} for cc in ("js", "json")] +
-    [{"kind": "known", "signature": {"fam": "showtable", "rel": "B=>~R", "cc": "mdurl", "type": t}, "what": _W4 + " (%s)" % t}
-     for t in ("T.MarkdownStringer", "T.MarkdownEnvStringer")]
-)
+PROPOSED_KNOWN = []   # the three defects found by this check were fixed in /repo (see known-findings.json, kind "fixed")
 
 
 def case_of(o):
